@@ -34,24 +34,26 @@ theorem fullsync_equals_snapshot (c : Cfg) (ops : List Op) :
 
 /-- While a stream is attached, what the standby has applied followed by what still sits in the client
     channel is exactly what entered the channel, which is an in-order selection of what was broadcast, and
-    broadcast order is push order (strictly increasing sequence numbers): the standby applies the delivered
-    prefix of the stream in push order, never out of order and never twice. -/
+    broadcast order is push order (strictly increasing sequence numbers of the changes; heartbeats carry no
+    change): the standby applies the delivered prefix of the stream in push order, never out of order and never
+    twice. -/
 theorem stream_in_order (c : Cfg) (ops : List Op) (ch : List Msg)
     (hc : (run (init c) ops).client = some ch) :
     (run (init c) ops).applied ++ ch = (run (init c) ops).sent ∧
     (run (init c) ops).sent.Sublist (run (init c) ops).bcast ∧
-    List.Pairwise (· < ·) ((run (init c) ops).bcast.map (·.seq)) := by
+    List.Pairwise (· < ·) ((changes (run (init c) ops).bcast).map (·.seq)) := by
   have hI := inv_run (inv_init c) ops
   refine ⟨hI.chan ch hc, hI.sub, ?_⟩
   have := hI.incr
   rw [List.map_append] at this
   exact (List.pairwise_append.mp this).1
 
-/-- exclusion clause of D43 for the stream clause: in this attachment a broadcast found the client channel full -/
-def excl_D43_stream (s : State) : Bool := s.dropEpoch
+/-- exclusion clause of D43 for the stream clause: in this attachment a broadcast found the client channel full
+    (`dropped` lists the changes concerned) -/
+def excl_D43_stream (s : State) : Bool := !s.dropped.isEmpty
 
 /-- PARTIAL (finding D43 excluded): unless a broadcast found the client channel full during this
-    attachment, EVERY change broadcast while the stream was attached has been applied by the standby or
+    attachment, EVERY message broadcast while the stream was attached has been applied by the standby or
     is still in the channel, in push order.  Missing for full strength: `broadcastToClients` drops the
     change when the channel is full (`D43_stream_witness`). -/
 theorem stream_complete_partial (c : Cfg) (ops : List Op) (ch : List Msg)
@@ -60,32 +62,98 @@ theorem stream_complete_partial (c : Cfg) (ops : List Op) (ch : List Msg)
     (run (init c) ops).applied ++ ch = (run (init c) ops).bcast := by
   have hI := inv_run (inv_init c) ops
   rw [hI.chan ch hc]
-  exact hI.nodrop hx
+  apply hI.nodrop
+  simpa [excl_D43_stream] using hx
 
-/-- exclusion clause of D42: since the last full sync, a change made after its snapshot was broadcast while
-    no stream was attached -/
-def excl_D42 (s : State) : Bool := s.gapLost
+/-- exclusion clause of D42, per session: since the last full sync, a change to session `k` made after that
+    sync's snapshot was broadcast while no stream was attached -/
+def excl_D42 (s : State) (k : Nat) : Bool := decide (k ∈ s.gapKeys)
 
-/-- exclusion clause of D43 for convergence: a change was dropped by a full client channel (or refused by the
-    full change queue) and no full sync has found the pipeline empty since -/
-def excl_D43 (s : State) : Bool := s.lostFull
+/-- exclusion clause of D43 for convergence, per session: a change to session `k` was dropped by a full client
+    channel (or refused by the full change queue) and no snapshot has been taken since with nothing about `k`
+    in flight -/
+def excl_D43 (s : State) (k : Nat) : Bool := decide (k ∈ s.fullKeys)
 
-/-- PARTIAL (findings D42 and D43 excluded): once the link is up (a full sync completed and the stream has
-    not been lost since), the active is quiet and nothing is in flight, the standby holds exactly the
-    active's sessions.  Missing for full strength: a change made between the full sync's snapshot and the
-    stream attachment reaches nobody (`D42_witness`), and a change that finds the client channel full is
-    dropped (`D43_witness`). -/
+/-- PARTIAL (findings D42 and D43 excluded, session by session): once the link is up (a snapshot was applied and
+    the stream has not been lost since), the active is quiet and nothing is in flight, the standby holds exactly
+    the active's value for EVERY session that is not in the scope of one of the two findings.  Missing for full
+    strength: a change made between the full sync's snapshot and the stream attachment reaches nobody
+    (`D42_witness`), and a change that finds the client channel full is dropped (`D43_witness`). -/
 theorem converges_partial (c : Cfg) (ops : List Op)
     (hq : Quiescent (run (init c) ops))
-    (hs : (run (init c) ops).fullSynced = true)
-    (h42 : excl_D42 (run (init c) ops) = false)
-    (h43 : excl_D43 (run (init c) ops) = false) :
-    SameTable (run (init c) ops).store (run (init c) ops).table := by
+    (hs : (run (init c) ops).fullSynced = true) (k : Nat)
+    (h42 : excl_D42 (run (init c) ops) k = false)
+    (h43 : excl_D43 (run (init c) ops) k = false) :
+    lookup (run (init c) ops).store k = lookup (run (init c) ops).table k := by
   have hI := inv_run (inv_init c) ops
-  intro k
-  rcases hI.S hs h42 h43 k with h | ⟨m, hm, _, _⟩
+  rcases hI.S hs k (by simpa [excl_D42] using h42) (by simpa [excl_D43] using h43) with h | ⟨m, hm, _, _⟩
   · exact h
   · simp [State.inflight, hq.2.1, hq.2.2] at hm
+
+/-! ### what the history variables behind the clauses record (one equation per variable, for every state and
+    operation): the clauses are not free parameters of the theorems -/
+
+/-- `gapKeys` grows exactly when a change newer than the last snapshot is broadcast with no stream attached, and
+    is emptied by every snapshot. -/
+theorem gapKeys_step (s : State) (op : Op) :
+    (step s op).1.gapKeys =
+      match op with
+      | .broadcast => (match s.pending, s.client with
+          | m :: _, none => if s.snapSeq < m.seq then s.gapKeys ++ [m.key] else s.gapKeys
+          | _, _ => s.gapKeys)
+      | .fullSync => []
+      | .streamFull => if s.client.isSome then [] else s.gapKeys
+      | _ => s.gapKeys := by
+  cases op <;> simp only [step, push, broadcast, fullSync, streamFull, heartbeat, attach, deliver, disconnect]
+  all_goals ((repeat' split) <;> (try simp_all) <;> (try omega))
+
+/-- `fullKeys` grows exactly when PushChange refuses a change (queue full) or a broadcast finds the client channel
+    full, and a snapshot removes exactly the sessions about which nothing is in flight any more. -/
+theorem fullKeys_step (s : State) (op : Op) :
+    (step s op).1.fullKeys =
+      match op with
+      | .add k _ | .update k _ | .delete k =>
+          if s.pending.length < s.cfg.capP then s.fullKeys else s.fullKeys ++ [k]
+      | .broadcast => (match s.pending, s.client with
+          | m :: _, some ch => if ch.length < s.cfg.capC then s.fullKeys else s.fullKeys ++ [m.key]
+          | _, _ => s.fullKeys)
+      | .fullSync => s.fullKeys.filter fun k => s.inflight.any (·.touches k)
+      | .streamFull => if s.client.isSome then s.fullKeys.filter fun k => s.inflight.any (·.touches k) else s.fullKeys
+      | _ => s.fullKeys := by
+  cases op <;> simp only [step, push, broadcast, fullSync, streamFull, heartbeat, attach, deliver, disconnect]
+  all_goals ((repeat' split) <;> (try simp_all) <;> (try omega))
+
+/-- so a session leaves the scope of D43 at the first snapshot taken with nothing about it in flight — in
+    particular under continuous traffic on OTHER sessions; a session that is itself changed continuously stays
+    excluded until a snapshot catches it between changes (converges_partial says nothing about it meanwhile). -/
+theorem excl_D43_resets (s : State) (k : Nat) (h : s.inflight.any (·.touches k) = false) :
+    excl_D43 (fullSync s).1 k = false := by
+  simp [excl_D43, fullSync, h]
+
+/-- `dropped` grows exactly when a broadcast finds the attached client channel full; attach and disconnect
+    empty it. -/
+theorem dropped_step (s : State) (op : Op) :
+    (step s op).1.dropped =
+      match op with
+      | .broadcast => (match s.pending, s.client with
+          | m :: _, some ch => if ch.length < s.cfg.capC then s.dropped else s.dropped ++ [m]
+          | _, _ => s.dropped)
+      | .attach => if s.client.isSome then s.dropped else []
+      | .disconnect => if s.client.isSome then [] else s.dropped
+      | _ => s.dropped := by
+  cases op <;> simp only [step, push, broadcast, fullSync, streamFull, heartbeat, attach, deliver, disconnect]
+  all_goals ((repeat' split) <;> (try simp_all) <;> (try omega))
+
+/-- `fullSynced` ("the link is up") is set by a snapshot and cleared by losing the stream, nothing else. -/
+theorem fullSynced_step (s : State) (op : Op) :
+    (step s op).1.fullSynced =
+      match op with
+      | .fullSync => true
+      | .streamFull => if s.client.isSome then true else s.fullSynced
+      | .disconnect => if s.client.isSome then false else s.fullSynced
+      | _ => s.fullSynced := by
+  cases op <;> simp only [step, push, broadcast, fullSync, streamFull, heartbeat, attach, deliver, disconnect]
+  all_goals ((repeat' split) <;> (try simp_all) <;> (try omega))
 
 /-! ### recorded findings, proved on the model -/
 
@@ -97,7 +165,7 @@ def w42 : List Op := [.fullSync, .add 1 1, .broadcast, .attach]
 
 theorem D42_witness :
     Quiescent (run (init cfg1) w42) ∧ (run (init cfg1) w42).fullSynced = true ∧
-    excl_D42 (run (init cfg1) w42) = true ∧ excl_D43 (run (init cfg1) w42) = false ∧
+    excl_D42 (run (init cfg1) w42) 1 = true ∧ excl_D43 (run (init cfg1) w42) 1 = false ∧
     lookup (run (init cfg1) w42).store 1 = none ∧ lookup (run (init cfg1) w42).table 1 = some 1 := by
   decide
 
@@ -108,7 +176,7 @@ def w43 : List Op := [.fullSync, .attach, .add 1 1, .delete 1, .broadcast, .broa
 
 theorem D43_witness :
     Quiescent (run (init cfg1) w43) ∧ (run (init cfg1) w43).fullSynced = true ∧
-    excl_D43 (run (init cfg1) w43) = true ∧ excl_D42 (run (init cfg1) w43) = false ∧
+    excl_D43 (run (init cfg1) w43) 1 = true ∧ excl_D42 (run (init cfg1) w43) 1 = false ∧
     lookup (run (init cfg1) w43).store 1 = some 1 ∧ lookup (run (init cfg1) w43).table 1 = none := by
   decide
 
@@ -119,11 +187,21 @@ theorem D43_stream_witness :
     (run (init cfg1) w43).applied.length = 1 ∧ (run (init cfg1) w43).bcast.length = 2 := by
   decide
 
+/-- D43 through a heartbeat: the keep-alive occupies the only slot of the client channel and the next change is
+    dropped. -/
+theorem D43_heartbeat_witness :
+    let s := run (init cfg1) [.fullSync, .attach, .heartbeat, .add 1 1, .broadcast, .deliver]
+    Quiescent s ∧ excl_D43 s 1 = true ∧ lookup s.store 1 = none ∧ lookup s.table 1 = some 1 := by
+  decide
+
 /-! non-vacuity: the hypotheses of the partial theorems are satisfiable together, on a history that
-    exercises delete-while-away, reconnect, and in-order streaming -/
+    exercises delete-while-away, reconnect, heartbeats, an in-stream snapshot and in-order streaming; and a session
+    outside the findings' scope converges although another session is inside it -/
 example : let s := run (init cfg1) [.add 1 1, .broadcast, .fullSync, .attach, .disconnect, .delete 1, .add 2 5,
-      .broadcast, .broadcast, .fullSync, .attach, .update 2 7, .broadcast, .deliver]
+      .broadcast, .broadcast, .fullSync, .attach, .heartbeat, .deliver, .update 2 7, .broadcast, .deliver, .streamFull]
     s.connected = true ∧ s.client = some [] ∧ s.pending = [] ∧ s.fullSynced = true ∧
-    excl_D42 s = false ∧ excl_D43 s = false ∧ excl_D43_stream s = false ∧ s.store = [(2, 7)] := by decide
+    excl_D42 s 2 = false ∧ excl_D43 s 2 = false ∧ excl_D43_stream s = false ∧ s.store = [(2, 7)] := by decide
+example : let s := run (init cfg1) (w42 ++ [.add 2 2, .broadcast, .deliver])
+    excl_D42 s 1 = true ∧ excl_D42 s 2 = false ∧ excl_D43 s 2 = false ∧ lookup s.store 2 = lookup s.table 2 := by decide
 
 end Bng.Spec.C13
